@@ -301,7 +301,7 @@ def make_sched_run(cfg):
     from vf.memnet import MemNet
     install_shims()
     from Pyro5 import server, config
-    watch = S.watch_functions(server.Daemon._getInstance)
+    watch = S.watch_functions(server.Daemon._getInstance, follow=True)
 
     def run_fn(chooser):
         config.reset(False)
